@@ -147,8 +147,10 @@ def replay(data):
     r = data["replay"]
     o1, _ = obs.construct(r["ver"], r["lo"])
     o2, _ = obs.construct(r["ver"], r["hi"])
-    if o1 is None or o2 is None:
-        return False, "rejected"
+    if o1 is None:
+        return obs.rejected_verdict(r["ver"], r["lo"], "rejected")
+    if o2 is None:
+        return obs.rejected_verdict(r["ver"], r["hi"], "rejected")
     s1, s2 = o1.scores(), o2.scores()
     ok = all(s1[i] is None or s2[i] is None or s2[i] >= s1[i] for i in r["slots"])
     return ok, "less severe %r -> %r; more severe %s in %r -> %r" % (r["lo"], s1, r["metric"], r["hi"], s2)
